@@ -428,7 +428,7 @@ func (l *LocV) index(c *Ctx, idx Term) *LocV {
 func (c *Ctx) sliceElemLoc(s Value, idx Term) *LocV {
 	et := s.T.Underlying().(*types.Slice).Elem()
 	return &LocV{Kind: 'E', Key: "E:" + typeKey(et), Ref: s.SRef(), T: et,
-		Steps: []step{{idx: c.add(s.SOff(), idx), isIdx: true}}}
+		Steps: []step{{idx: c.Ix(s.SOff(), idx), isIdx: true}}}
 }
 
 // heapArrays returns, for a heap location, the (key, index-chain, leaf) triples under it.
